@@ -47,8 +47,11 @@ IsEvent(name) == l <= NEvts /\ Ev.ev = name /\ l' = l + 1 /\ tid' = tid
 
 ToRun(r) == [exact |-> r.exact, x0 |-> r.x0, t0 |-> r.t0r, horizon |-> r.horizonr]
 
+(* a run whose path was rejected upstream can still have the table it returned judged on its own (gridonly): the
+   validation then starts at the Gridded event *)
+GridAt(r) == CHOOSE k \in 1..Len(r.events) : r.events[k].ev = "Gridded"
 TraceInit == /\ tid \in 1..Len(Tr.runs)
-             /\ l = 1
+             /\ l = IF Tr.runs[tid].gridonly THEN GridAt(Tr.runs[tid]) ELSE 1
              /\ InitRun(ToRun(Tr.runs[tid]))
 
 (* ---- the first-reaction mechanism (C05) ---- *)
@@ -108,7 +111,7 @@ TrReturn ==
 
 (* what it returned for a grid of output times (ranks g[1] < g[2] < ...) *)
 TrGridded ==
-    /\ IsEvent("Gridded") /\ pc = "done"
+    /\ IsEvent("Gridded") /\ pc = "done" /\ ~Run.gridonly
     /\ Len(Ev.rows) = Len(Ev.grid)
     /\ (Ev.grid[1] = run.t0 => Ev.rows[1] = run.x0)
     /\ Len(Ev.counts) = Len(Ev.grid) - 1
@@ -119,7 +122,20 @@ TrGridded ==
                 /\ Ev.rows[k + 1] = Apply(Ev.rows[k], Ev.counts[k])
     /\ UNCHANGED vars
 
-TraceNext == TrFR \/ TrTL \/ TrZero \/ TrEnd \/ TrReturn \/ TrGridded
+(* the clauses of C15 that do not mention the path: one row per requested time, the first row the initial state, and in
+   exact mode non-negative counts with consecutive rows differing by V . counts *)
+TrGriddedAlone ==
+    /\ IsEvent("Gridded") /\ Run.gridonly
+    /\ Len(Ev.rows) = Len(Ev.grid)
+    /\ (Ev.grid[1] = run.t0 => Ev.rows[1] = run.x0)
+    /\ Len(Ev.counts) = Len(Ev.grid) - 1
+    /\ run.exact =>
+          \A k \in 1..(Len(Ev.grid) - 1) :
+                /\ \A e \in Events : Ev.counts[k][e] >= 0
+                /\ Ev.rows[k + 1] = Apply(Ev.rows[k], Ev.counts[k])
+    /\ UNCHANGED vars
+
+TraceNext == TrFR \/ TrTL \/ TrZero \/ TrEnd \/ TrReturn \/ TrGridded \/ TrGriddedAlone
 TraceSpec == TraceInit /\ [][TraceNext]_tvars
 
 (* progress report: the harness takes, per run, the largest l printed; a run is accepted iff it reaches NEvts + 1 *)
